@@ -82,6 +82,17 @@ def gen_plan(rng, tier="quick"):
     }
     if rng.random() < 0.1:
         recipe["dir_first"] = True
+    # storage-level variations of the same contents (coordinate dtypes, labels, attributes)
+    if rng.random() < 0.12:
+        recipe["dir_dtype"] = rng.choice(["int64", "float32"])
+    if rng.random() < 0.08:
+        recipe["freq_dtype"] = "float32"
+    if rng.random() < 0.1:
+        recipe["site_labels"] = "str"
+    if rng.random() < 0.3:
+        recipe["std_attrs"] = True
+    if rng.random() < 0.08:
+        recipe["scalar_coord"] = True
     op = O.gen_op(rng, recipe, pool)
     cls = O.tol_class(op)
     if op["m"] in ("ptm1", "ptm2", "ptm3", "hp01") and rng.random() < (0.12 if tier == "thorough" else 0.06):
